@@ -69,7 +69,7 @@ def noReuse : List TransportConn.Ev → Bool
 
 /-- expected outcome of the call that hits the cut -/
 def firstExpected (scenario : String) : String :=
-  if scenario.startsWith "writer.WriteMessages/metadata" then "returned"
+  if scenario.startsWith "writer.WriteMessages/metadata" || scenario.startsWith "reader." then "returned"
   else if scenario.startsWith "writer.WriteMessages" then "ok"     -- the Writer retries on a new connection
   else "err"
 
